@@ -150,9 +150,8 @@ def case_shb(L, lifetime, mobile=GnIsMobile.MOBILE, width=None):
     return h, req, conf, ex, lifetime_ms(h, lifetime)
 
 
-def case_gbc(ht, hst, L, lifetime, mobile=GnIsMobile.MOBILE, method=None):
-    I0 = None
-    h = Harness(8 * 24 + 128, itsGnIsMobile=mobile, mib_sym=None)
+def case_gbc(ht, hst, L, lifetime, mobile=GnIsMobile.MOBILE, method=None, width=None):
+    h = Harness(width or (8 * 24 + 128), itsGnIsMobile=mobile, mib_sym=None)
     I = h.I
     dflt = sym_hop_default(I)
     mo = I.lift_value(h.R.mib)
@@ -183,8 +182,8 @@ def case_gbc(ht, hst, L, lifetime, mobile=GnIsMobile.MOBILE, method=None):
     return h, req, conf, ex, lifetime_ms(h, lifetime), dict(sn0=sn0, dflt=dflt, hop=hop)
 
 
-def case_guc(L, lifetime, mobile=GnIsMobile.MOBILE):
-    h = Harness(8 * 24 + 128, itsGnIsMobile=mobile)
+def case_guc(L, lifetime, mobile=GnIsMobile.MOBILE, width=None):
+    h = Harness(width or (8 * 24 + 128), itsGnIsMobile=mobile)
     I = h.I
     dflt = sym_hop_default(I)
     mo = I.lift_value(h.R.mib)
